@@ -331,8 +331,37 @@ CMP_RULE = {
 }
 
 
+CMP_FAMILY_TYPES = ["u8", "u16", "u32", "u64", "byte", "char", "bool", "i8", "i32", "ptr", "f32", "B3"]
+
+
+def cmp_family(rng, count):
+    """Parameter lists of mostly memcmp-comparable types with random AlignAs values: runs of bytewise-compared parameters
+    with every kind of padding in front of, between and behind them."""
+    out, seen, guard = [], set(), 0
+    aligns = [0, 0, 1, 2, 4, 4, 8, 8, 16]
+    while len(out) < count and guard < count * 50:
+        guard += 1
+        fields = []
+        for _ in range(rng.randint(2, 4)):
+            k = rng.choice("PPPFV")
+            t = rng.choice(CMP_FAMILY_TYPES[:10] if rng.random() < 0.85 else CMP_FAMILY_TYPES)
+            if k == "V":
+                fields.append(("C", rng.choice(["u8", "u16", "u32", "u64"]), rng.choice([0, 0, 2, 4, 8])))
+            fields.append((k, t, rng.choice(aligns)))
+        if len(fields) > 6:
+            continue
+        s = ",".join("%s:%s%s" % (k, t, "@%d" % a if a else "") for k, t, a in fields)
+        if s not in seen:
+            seen.add(s)
+            out.append(s)
+    return out
+
+
 def cmp_units(prop, tier, seed):
     configs = list(CMP_CONFIGS)
+    frng = random.Random(seed * 15485863 + 11)
+    kinds = ["std", "s000", "s111", "s010"]
+    configs += [(c, kinds[i % 4]) for i, c in enumerate(cmp_family(frng, 16 if tier == "quick" else 80))]
     if tier == "thorough":
         configs += [(c, k[0]) for c, k in sampled_configs(seed + 100, 40) if vf.cfg_copyable(c)]
     cases = 150 if tier == "quick" else 2500
@@ -431,8 +460,8 @@ def run_elem_check(tier):
 
 
 # ---------------------------------------------------------------------------------------------- C15 emplace
-EMPLACE_GROUPS = 5
-EMPLACE_RULE = "finite grid, enumerated completely: 21 type pairs (same type, integral / floating conversions, bool, enums, classes with converting constructor or conversion operator, std::string, pointers, instrumented and move-only types) x 13 source forms (std::array / std::vector / C array / std::list as lvalue and rvalue, generated input range, pointer, contiguous and node iterators, move_iterator, counting input iterator) x FixedSize / VaryingSize x lengths 0..5, as C++17 and C++20; stored values compared with static_cast<T>(source item) computed beforehand, lvalue sources compared before / after, moves and copies counted by the instrumented type, consumption counted by the input iterator; non-trivial: length > 0; distinct: the cell"
+EMPLACE_GROUPS = 6
+EMPLACE_RULE = "finite grid, enumerated completely: 24 type pairs (incl. sources whose conversion depends on the value category) (same type, integral / floating conversions, bool, enums, classes with converting constructor or conversion operator, std::string, pointers, instrumented and move-only types) x 13 source forms (std::array / std::vector / C array / std::list as lvalue and rvalue, generated input range, pointer, contiguous and node iterators, move_iterator, counting input iterator) x FixedSize / VaryingSize x lengths 0..5, as C++17 and C++20; stored values compared with static_cast<T>(source item) computed beforehand, lvalue sources compared before / after, moves and copies counted by the instrumented type, consumption counted by the input iterator; non-trivial: length > 0; distinct: the cell"
 
 
 def emplace_units(tier, seed):
